@@ -5,7 +5,9 @@ package c06
 
 import (
 	"fmt"
+	"os"
 	"sort"
+	"strconv"
 	"strings"
 	"time"
 
@@ -690,8 +692,13 @@ func RunCheck(run *ev.Run, prop string) {
 	}
 	exh := true
 	var bounds []string
+	// VERIF_DEADLINE_SCALE=n stretches the internal deadlines (for runs on a heavily loaded machine)
+	scale := 1
+	if n, err := strconv.Atoi(os.Getenv("VERIF_DEADLINE_SCALE")); err == nil && n > 1 {
+		scale = n
+	}
 	for _, p := range plans {
-		cfg := bfs.Config{Scenario: p.name, MaxDepth: p.depth, Deadline: p.deadline}
+		cfg := bfs.Config{Scenario: p.name, MaxDepth: p.depth, Deadline: p.deadline * time.Duration(scale)}
 		st := bfs.Explore(cfg, run)
 		bfs.Report(run, strings.SplitN(p.name, "/", 2)[1], cfg, st)
 		exh = exh && st.Exhaustive
